@@ -399,10 +399,11 @@ import oracles  # noqa: E402  (python-side support oracles; registers nothing by
 import families  # noqa: E402
 
 register("C01", streams=[Q("child", apis=["find_matches"], src=False, maxlen=5)],
-         observables=["results"], oracles=[oracles.identity_oracle, oracles.requery_oracle, oracles.big_iteration_oracle_for({"kind": "wc", "n": 400000})],
+         observables=["results"], oracles=[oracles.identity_oracle, oracles.requery_oracle, oracles.interleave_child_oracle, oracles.big_iteration_oracle_for({"kind": "wc", "n": 400000})],
          rule="random JSON documents (depth<=4, shuffled keys, empty containers, falsy scalars) x child-step paths grown by walking the document (75%) or free (25%); non-trivial = at least one result and >=2 steps, or an exception; distinct by scenario hash",
          assumptions=["floats restricted to half-integers", "slice step 0 and bool indices excluded (not supported steps)"])
-register("C02", streams=[Q("rec", apis=["find_matches"], src=False, maxlen=5)],
+register("C02", streams=[Q("rec", apis=["find_matches"], src=False, maxlen=5, share=4), Q("recpar", apis=["find_matches"], src=None, maxlen=5, share=1)],
+         extra=[families.BuilderFamily("dag", 300, 15000, "recursive steps written through the builders (path / pathd, steps after rec): renderings and selections")],
          observables=["results"], oracles=[oracles.reiter_oracle, oracles.big_iteration_oracle_for({"kind": "rec", "n": 180000}, {"kind": "rec_scalars", "n": 6000}), oracles.reuse_oracle],
          rule="documents with ragged depth and empty containers x paths with >=1 recursive step mixed with all other step kinds; non-trivial as C01")
 register("C03", streams=[Q("filter", pred="custom", apis=["find_matches"], src=False, share=2), Q("filter", pred="mixed", apis=["find_matches"], src=False, share=1),
